@@ -5,8 +5,10 @@ go 1.26.8
 require (
 	github.com/bmatcuk/doublestar/v4 v4.8.1
 	github.com/go-jose/go-jose/v4 v4.0.5
+	github.com/gorilla/securecookie v1.1.2
 	github.com/zitadel/oidc/v3 v3.0.0
 	golang.org/x/net v0.36.0
+	golang.org/x/oauth2 v0.29.0
 	golang.org/x/text v0.24.0
 )
 
@@ -15,7 +17,6 @@ require (
 	github.com/go-logr/logr v1.4.2 // indirect
 	github.com/go-logr/stdr v1.2.2 // indirect
 	github.com/google/uuid v1.6.0 // indirect
-	github.com/gorilla/securecookie v1.1.2 // indirect
 	github.com/muhlemmer/gu v0.3.1 // indirect
 	github.com/muhlemmer/httpforwarded v0.1.0 // indirect
 	github.com/rs/cors v1.11.1 // indirect
@@ -26,7 +27,6 @@ require (
 	go.opentelemetry.io/otel/metric v1.29.0 // indirect
 	go.opentelemetry.io/otel/trace v1.29.0 // indirect
 	golang.org/x/crypto v0.35.0 // indirect
-	golang.org/x/oauth2 v0.29.0 // indirect
 	golang.org/x/sys v0.30.0 // indirect
 )
 
